@@ -259,7 +259,7 @@ def run(chk):
             ncmp += 1
             chk.distinct.add(c)
             same = d.get("recon") == md.get("recon") and int(md.get("req", "0"), 16) == info["req"] and int(md.get("median", "0"), 16) == info["median"]
-            extreme = classes.classify_extreme("rt " + " ".join(c.split(" ")[1:]), r)
+            extreme = classes.outside_model_domain("rt " + " ".join(c.split(" ")[1:]), r)
             if extreme:
                 ncmp -= 1          # outside the model's domain: (int) of an infinite / out-of-range value is undefined in C
                 chk.distinct.discard(c)
@@ -268,7 +268,7 @@ def run(chk):
                 if nbad <= 3:
                     chk.broken.append("correspondence C01 (1-D kernel, bit-exact) on `%s`: model req=%s median=%s impl req=%x median=%x; recon equal: %s" % (
                         c[:110], md.get("req"), md.get("median"), info["req"], info["median"], d.get("recon") == md.get("recon")))
-            if md.get("okexact") == "0" or md.get("mirror") == "0":
+            if (md.get("okexact") == "0" or md.get("mirror") == "0") and not extreme:
                 # the model itself found an element whose exact storage leaves the bound, or a decoder/encoder mismatch:
                 # a counterexample to the checked theorems' premises; listed extreme-input classes excepted
                 fake = "rt " + " ".join(c.split(" ")[1:])
